@@ -481,6 +481,9 @@ def gen_script(rng, pp: dict, boundary: str, wire_form: bool, *, allow_partial=T
     apis = ["read", "read_decode", "read_decode", "chunk", "chunk", "chunk", "chunk_until_empty", "iter", "release", "skip"]
     if allow_partial:
         apis += ["partial_chunk"]
+        # trigger sub-stratum: some lines through readline(), then on to the next part (an API mix inside one part)
+        if (cte in (None, "binary")) and enc in (None, "identity") and pp["content"].count(b"\n") >= 2 and max_line_len(pp["content"]) < 100000 and rng.random() < 0.5:
+            apis += ["partial_readline"]
     # readline: lines must stay below StreamReader's own line limit (2 * 2**16), docs: readline reads one line
     approx_wire_line = max_line_len(pp["content"]) if plain else 0
     if plain and approx_wire_line < 100000:
@@ -501,6 +504,9 @@ def gen_script(rng, pp: dict, boundary: str, wire_form: bool, *, allow_partial=T
             sc["count"] = rng.choice([0, 1, 2, 3])
         elif plain or b64only:
             sc["decode_chunks"] = True
+    if api == "partial_readline":
+        sc["count"] = rng.choice([1, 1, 2])
+        sc["then"] = rng.choice(["next", "release", "read"])
     if api in ("read", "chunk", "release", "text") and rng.random() < 0.15:
         sc["reread"] = True
     return sc
